@@ -199,12 +199,81 @@ def backward_calls(fa, op, targets, depth=0, seen=None):
     return out
 
 
+def _array_loop(fa, b):
+    """If the call at block b runs once per trip of `for x in [a, b, c] { .. }` (a loop over an
+    array literal): (loop head block, the array's element operands), else None."""
+    for hb, ht in fa.calls():
+        if not any(strip_generics(x).endswith("::next") for x in callee_paths(ht)):
+            continue
+        sw = ht.get("t")
+        st = fa.term(sw) if sw is not None else None
+        if st is None or st["k"] != "switch":
+            continue
+        some_t = [tg for v, tg in zip(st["vals"], st["targets"]) if v == 1]
+        none_t = [tg for v, tg in zip(st["vals"], st["targets"]) if v == 0] or [st["otherwise"]]
+        if not some_t:
+            continue
+        body = fa.reachable(some_t[0], avoid={hb}) - fa.reachable(none_t[0], avoid={hb})
+        if b not in body:
+            continue
+        if hb in fa.reachable(some_t[0], avoid={b}):
+            return None                      # not on every trip
+        cur = ht["args"][0]
+        for _ in range(10):
+            pl = op_place(cur)
+            if pl is None:
+                return None
+            ds = [d for d in fa.defs().get(pl["l"], []) if d[2] != "partial"]
+            if len(ds) != 1:
+                return None
+            d = ds[0]
+            if d[2] == "call":
+                nm = (callee_of(d[3]) or {}).get("name")
+                if nm not in ("into_iter", "iter") or not d[3]["args"]:
+                    return None
+                cur = d[3]["args"][0]
+            elif d[3]["k"] == "agg" and d[3].get("agg") == "array":
+                return hb, d[3]["ops"]
+            elif d[3]["k"] in ("use", "cast"):
+                cur = d[3]["op"]
+            elif d[3]["k"] == "ref":
+                cur = {"c": d[3]["place"]}
+            else:
+                return None
+        return None
+    return None
+
+
 def enc_sequence(E, f):
     fa = FnA(f)
     calls, chain = codec_calls(fa, ("encode",))
+    unrolled = {}
+    if not chain:
+        # `for x in [&self.a, &self.b, &self.c] { x.encode(..)?; }`: one wire element per array
+        # element, in the array's order
+        pos = {}
+        for b, t in calls:
+            al = _array_loop(fa, b)
+            if al is not None:
+                unrolled[b] = al
+            pos[b] = al[0] if al is not None else b
+        dom = fa.dominators()
+        order = sorted(calls, key=lambda x: len(dom[pos[x[0]]]))
+        heads = [pos[b] for b, t in order]
+        if len(set(heads)) == len(heads) and unrolled and \
+                all(fa.dominates(heads[i], heads[i + 1]) for i in range(len(heads) - 1)):
+            calls, chain = order, True
+        else:
+            unrolled = {}
     seq = []
     for b, t in calls:
         ty = t["arg_tys"][0] if t.get("arg_tys") else "?"
+        if b in unrolled:
+            for o in unrolled[b][1]:
+                src = backward_fields(E, fa, o)
+                seq.append({"wire": norm_wire(ty), "raw": ty, "fields": sorted(src), "at": fa.loc(b), "b": b,
+                            "partial": None, "loose_wire": True, "hb": unrolled[b][0]})
+            continue
         src = backward_fields(E, fa, t["args"][0])
         seq.append({"wire": norm_wire(ty), "raw": ty, "fields": sorted(src), "at": fa.loc(b), "b": b,
                     "partial": _sub_range(fa, t["args"][0])})
@@ -368,7 +437,7 @@ def codec_rule(ctx, prop):
             for side, sq, sfa in (("encoder", es, efa), ("decoder", ds, dfa)):
                 ok_b, err_b, _ = result_exits(sfa)
                 skipped = [k for k, e in enumerate(sq) if "b" in e and
-                           not all(sfa.dominates(e["b"], o) for o in ok_b)]
+                           not all(sfa.dominates(e.get("hb", e["b"]), o) for o in ok_b)]
                 ctx.ob("CODEC", "%s|%s|%s-all-paths" % (cfg, adt, side), not skipped, locs,
                        "%s: every successful path of the %s passes all %d codec calls"
                        % (adt.split("::")[-1], side, len(sq)) if not skipped else
